@@ -1,7 +1,7 @@
 """C06 - structured concurrency: spawned tasks never outlive their scope."""
 import random
 
-from harness.legs import cfg_text, leg_m, leg_mutant, leg_r, leg_t_gen
+from harness.legs import cfg_text, gen_traces, leg_m, leg_mutant, leg_r, leg_t_gen
 from props.scopetasks_common import ScopeTasksDriver, replay  # noqa: F401
 
 SPEC = "ScopeTasks"
@@ -46,7 +46,7 @@ def run(rep, work, tier, seed):
     # generated from ScopeTasks.tla (existential acceptance: the spec is nondeterministic where the stdlib is)
     from props.scopetasks_common import TRACE_KW, gen_trace
     rnd = random.Random(seed * 29 + 1)
-    traces = [gen_trace(rnd) for _ in range(150 if tier == "quick" else 2000)]
+    traces = gen_traces(rep, lambda: gen_trace(rnd), 150 if tier == "quick" else 2000)
     leg_t_gen(rep, work, SPEC, f"trace_{tier}", traces, **TRACE_KW)
     rep.assumptions += [
         "spawned coroutines are gated doubles that obey cancellation at once (a task that swallows cancellation keeps "
